@@ -337,7 +337,26 @@ func (e *env) setup() error {
 
 // ---- oracle views ----
 
-func (e *env) height() uint64 { return e.cm.Tip().Height }
+// height is the height of the wallet store's tip (= the harness ledger's): the
+// snapshot the wallet's outputs come from. The manager may be ahead of it.
+func (e *env) height() uint64 { return e.ledgerTip.Height }
+
+// lagging: blocks have reached the manager that the wallet store has not applied.
+func (e *env) lagging() bool { return e.ledgerTip != e.cm.Tip() }
+
+// mineNoSync adds k blocks to the manager only.
+func (e *env) mineNoSync(to types.Address, k int) error {
+	for ; k > 0; k-- {
+		b, ok := coreutils.MineBlock(e.cm, to, 5*time.Second)
+		if !ok {
+			return errors.New("mining failed")
+		}
+		if err := e.cm.AddBlocks([]types.Block{b}); err != nil {
+			return err
+		}
+	}
+	return nil
+}
 
 // poolView returns the ids spent by pool transactions and the wallet-owned
 // outputs created and not spent by them (read from the manager's pool).
